@@ -4,7 +4,7 @@
 //! exactly once, so a top-level statement location determines its task.
 use serde_json::Value as Json;
 
-pub const TEMPLATES: usize = 6;
+pub const TEMPLATES: usize = 7;
 
 fn p(params: &Json, key: &str, default: i64) -> i64 {
     params[key].as_i64().unwrap_or(default)
@@ -66,6 +66,14 @@ pub fn source(template: usize, params: &Json) -> (String, usize, bool) {
             );
             (s, 2, false)
         }
+        // 6: like 0, plus task-associated FB instances: one whose EN input stays FALSE (its body is skipped every
+        // cycle) and one that runs
+        6 => {
+            let s = format!(
+                "CONFIGURATION C\n{globals}TASK T0 (INTERVAL := T#{i0}ms, PRIORITY := {pr0});\nTASK T1 (INTERVAL := T#{i1}ms, PRIORITY := {pr1});\nPROGRAM P0 WITH T0 : Main (gate WITH T1, tick WITH T0);\nPROGRAM P1 WITH T1 : Aux;\nEND_CONFIGURATION\n\n{leaf}{mid}{acc}FUNCTION_BLOCK Gate\nVAR_INPUT\n  EN : BOOL;\nEND_VAR\nVAR_OUTPUT\n  ENO : BOOL;\nEND_VAR\nVAR\n  n : DINT;\nEND_VAR\nn := n + 1;\nEND_FUNCTION_BLOCK\n\nFUNCTION_BLOCK Tick\nVAR\n  n : DINT;\nEND_VAR\nn := n + Leaf(n);\nEND_FUNCTION_BLOCK\n\nPROGRAM Main\nVAR_EXTERNAL\n  g_acc : DINT;\n  g_cnt : DINT;\nEND_VAR\nVAR\n  fb : Acc;\n  gate : Gate;\n  tick : Tick;\n  k : DINT;\n  r : DINT;\nEND_VAR\ng_cnt := g_cnt + 1;\nFOR k := 1 TO {n2} DO\n  r := Mid(k, 2);\n  g_acc := g_acc + r;\nEND_FOR;\nfb(amount := g_cnt);\nr := fb.Bump(delta := {c2});\ng_acc := g_acc + fb.total;\nEND_PROGRAM\n\nPROGRAM Aux\nVAR_EXTERNAL\n  g_aux : DINT;\n  g_flag : BOOL;\nEND_VAR\nVAR\n  w : DINT;\nEND_VAR\nw := 0;\nWHILE w < {n1} DO\n  g_aux := g_aux + Leaf(w);\n  w := w + 1;\nEND_WHILE;\ng_flag := NOT g_flag;\nEND_PROGRAM\n"
+            );
+            (s, 2, false)
+        }
         // 5: deep call chain (depth 4) inside loops
         _ => {
             let s = format!(
@@ -90,7 +98,7 @@ pub fn program_threads(src: &str, n_tasks: usize) -> Vec<(u32, u32, u32)> {
             // PROGRAM P0 WITH T0 : Main;   |   PROGRAM P3 : Back;
             let rest = rest.trim_end_matches(';');
             let (lhs, ty) = match rest.split_once(':') {
-                Some((l, t)) => (l.trim(), t.trim().to_string()),
+                Some((l, t)) => (l.trim(), t.split('(').next().unwrap_or(t).trim().to_string()),
                 None => continue,
             };
             let thread = match lhs.split_once(" WITH T") {
